@@ -150,6 +150,8 @@ def install():
 
 
 def reset(jitter=None, jitter_default=1.0, entropy_seed=0, entropy_script=None):
+    # the process-global PRNG is ambient state too: pin it so that code drawing from it stays replayable
+    _random.seed(entropy_seed ^ 0x5EED)
     CLOCK.reset()
     JITTER.reset(jitter, jitter_default)
     ENTROPY.reset(entropy_seed, entropy_script)
